@@ -45,6 +45,14 @@ func c16Calibrations() []calibCase {
 		{"one line", sp("1000\n"), false, 0, 0},
 		{"empty", sp(""), false, 0, 0},
 		{"second line malformed", sp("1000\nx\n"), false, 0, 0},
+		{"both values on the first line", sp("2000 1000\n"), false, 0, 0},
+		{"both values on the first line, then a second line", sp("2 000\n1000\n"), false, 0, 0},
+		{"blank line between the values", sp("4\n\n2\n"), false, 0, 0},
+		{"leading blank line", sp("\n4\n2\n"), false, 0, 0},
+		{"tab separated on one line", sp("4\t2"), false, 0, 0},
+		{"trailing space on the first line", sp("4 \n2\n"), false, 0, 0},
+		{"CRLF line ends", sp("-2000\r\n1000\r\n"), true, -2000, 1000},
+		{"three lines", sp("3\n4\n5\n"), true, 3, 4},
 	}
 }
 
